@@ -17,7 +17,10 @@ ALL_MUTS = ["trunc_before", "trunc_before_fix", "trunc_inside", "trunc_inside_fi
             "len_max", "count_0", "count_p1", "count_max", "tag_unknown", "val_0", "val_max", "dup", "dup_fill", "dup_fill_empty", "empty",
             "list_plus1", "list_minus1", "swap", "nest", "seq_m1", "seq_p1", "seq_p2", "seq_p32768", "seq_half",
             "lst_empty_mid", "lst_lead", "lst_trail", "lst_only_sep", "lst_multibyte", "lst_multibyte_first", "lst_prefix_only",
-            "lst_many", "lst_long"]
+            "lst_many", "lst_long",
+            # a backwards count at the end of a group (pad count) relative to the enclosing lengths (Inputs.tla RelMuts)
+            "rel_g_m4", "rel_g_m3", "rel_g_m2", "rel_g_m1", "rel_g_0", "rel_g_p1", "rel_g_p2", "rel_g_p3", "rel_g_p4",
+            "rel_e_m4", "rel_e_m3", "rel_e_m2", "rel_e_m1", "rel_e_0", "rel_e_p1"]
 
 DECODERS = ["rtp", "rtcp", "stun", "dtls_record", "dtls_hsmsg", "dtls_clienthello", "dtls_serverhello", "dtls_hvr",
             "dtls_ske", "dtls_cert", "dtls_cke", "dtls_finished", "dcep", "sdp", "candidate"]
